@@ -348,7 +348,7 @@ func (e *taintEngine) callResult(call ssa.CallInstruction, idx int) taint {
 
 func (e *taintEngine) externalResult(name string, call ssa.CallInstruction) taint {
 	args := allArgs(call)
-	info, ok := externals[name]
+	info, ok := externals[extName(name)]
 	var t taint
 	if !ok {
 		for _, a := range args {
@@ -482,7 +482,7 @@ func (e *taintEngine) sinks(fns []*ssa.Function) []sink {
 					}
 					sort.Strings(ns)
 					for _, n := range ns {
-						info, ok := externals[n]
+						info, ok := externals[extName(n)]
 						if !ok {
 							if strings.HasPrefix(n, "sync.") || strings.HasPrefix(n, "(*sync.") || strings.HasPrefix(n, "sync/atomic.") {
 								out = append(out, sink{fn: fn, in: in, what: "call " + n, t: 0xff, undec: true, detail: "synchronisation primitive used inside a parse/accessor: review the concurrency argument"})
